@@ -378,7 +378,11 @@ impl BackgroundQueueBuilder {
             shutdown_timeout > Duration::ZERO,
             "shutdown_timeout must not be zero"
         );
-        self.shutdown_timeout = shutdown_timeout;
+        // Anything longer than a century ("wait as long as it takes", e.g. `Duration::MAX`) is capped, so that the
+        // shutdown deadline, `Instant::now() + shutdown_timeout`, cannot overflow (which would panic on the writer
+        // thread before anything was drained).
+        const MAX_SHUTDOWN_TIMEOUT: Duration = Duration::from_secs(100 * 365 * 24 * 60 * 60);
+        self.shutdown_timeout = shutdown_timeout.min(MAX_SHUTDOWN_TIMEOUT);
         self
     }
 
